@@ -74,6 +74,8 @@ struct Sched {
     bool active = false;         // scheduling on (between run() start and end)
     bool quiet = false;          // suppress op log lines
     bool yield_on_lock = false;
+    const void *yield_on_cv_entry = nullptr;   // this condition variable gets a scheduling point at the entry of wait(): the caller's
+                                               // predicate has been evaluated, the mutex is still held, the waiter is not yet registered
     bool track_only = false;     // only atomics named explicitly with name_obj() are scheduling points / logged (default: all)
     std::set<const void *> tracked_objs;
     std::map<const void *, std::string> obj_names;
@@ -471,6 +473,7 @@ public:
     void wait(Lock &lk) {
         auto &s = vshim::S();
         if (!s.active || vshim::self_id < 0) { return; }
+        if (s.yield_on_cv_entry == this) { s.log_op("cv-enter " + s.obj_name(this)); s.yield(); }
         bool flag = false;
         _waiters.push_back(&flag);
         lk.unlock();   // a scheduling point of its own
